@@ -23,6 +23,8 @@ class C06(ProgProp):
         from .. import gen as g
         if k % 100 == 37:
             return self.motif_case(rng, tier, g.motif_wide(rng, "ctx" if k % 200 == 37 else "na"))
+        if k % 16 == 9:
+            return self.motif_case(rng, tier, g.motif_aio_inside_task(rng))
         if k % 16 == 5:
             return self.motif_case(rng, tier, g.motif_unnested_ctx(rng))
         if k % 16 == 13:
